@@ -71,10 +71,17 @@ def search_conformance(chk, wd, traces):
     todo = [t["data"] for t in traces if t.get("data") and not t["ctor_error"]]
     if not todo:
         return
+    # shards of bounded size (every event carries a tree: TLC's JSON reader holds the whole shard in memory)
     todo.sort(key=lambda d: -len(d["events"]))
-    shards = [[] for _ in range(NPROC)]
-    for k, d in enumerate(todo):
-        shards[k % NPROC].append(d)
+    shards, cur, n = [], [], 0
+    for d in todo:
+        if cur and n + len(d["events"]) > 2500:
+            shards.append(cur)
+            cur, n = [], 0
+        cur.append(d)
+        n += len(d["events"])
+    if cur:
+        shards.append(cur)
 
     def val(ks):
         k, shard = ks
@@ -85,7 +92,13 @@ def search_conformance(chk, wd, traces):
         return tlc.run_tlc("SolverData", DATA_CFG, env={"TRACE_FILE": tf}, wd=w, xmx="3g", timeout=3000)
     rep = {"cases": 0, "steps": 0, "cases_with_broken_rules": 0, "broken_rules": {}, "examples": {}}
     byid = {t["id"]: t for t in traces}
-    for r in tmap(val, [(k, s) for k, s in enumerate(shards) if s]):
+    try:
+        results = tmap(val, [(k, s) for k, s in enumerate(shards) if s])
+    except tlc.TlcError as ex:
+        # a diagnostic never decides the property: if TLC cannot digest the data, say so in the evidence and go on
+        chk.cov["search_conformance"] = {"failed": str(ex)[:300]}
+        return
+    for r in results:
         chk.add_tlc(r)
         for _, cid, steps, diag in r.tuples("DATA"):
             rep["cases"] += 1
